@@ -27,8 +27,8 @@ RULE = (
 )
 ASSUMPTIONS = ["header presence is judged on the bytes parsed by the simulated origin/proxy", "origin = (scheme, lower-cased host, port with default filled in)"]
 REQUIRED_PROBES = {
-    "quick": ["stripped_after_cross_origin", "kept_on_same_origin_variant", "custom_set", "container:hhd", "container:manager_default", "host_changed", "followed"],
-    "thorough": ["stripped_after_cross_origin", "kept_on_same_origin_variant", "custom_set", "container:hhd", "container:manager_default", "host_changed", "followed", "https_hop"],
+    "quick": ["stripped_after_cross_origin", "kept_on_same_origin_variant", "custom_set", "container:hhd", "container:manager_default", "host_changed", "followed", "fault_then_retry", "second_request_same_manager"],
+    "thorough": ["stripped_after_cross_origin", "kept_on_same_origin_variant", "custom_set", "container:hhd", "container:manager_default", "host_changed", "followed", "https_hop", "fault_then_retry", "second_request_same_manager"],
 }
 
 SENSITIVE_SPELLINGS = ["Authorization", "AUTHORIZATION", "authorization", "aUtHoRiZaTiOn", "Cookie", "cookie", "COOKIE", "Proxy-Authorization", "proxy-authorization", "PROXY-AUTHORIZATION"]
@@ -115,11 +115,35 @@ def gen(rng, tier):
             loc = path
         web[node] = {"status": rng.choice([301, 302, 303, 307, 308]), "location": loc}
         cur = R.resolve(cur, loc)
+    sc = {"property": ID, "config": cfg, "web": web}
+    if rng.random() < 0.2 and method == "GET":
+        # fault stratum (as in C05): a node loses the connection on its first visit, so the pool's own error retry and the
+        # manager's redirect handling (where the headers are stripped) meet in one request
+        nodes = list(web) + [R.node_of(cur)]
+        sc["faults"] = {n: {"n": 1, "kind": rng.choice(["eof", "eof", "rst"])} for n in rng.sample(nodes, 1)}
+    return sc
+
+
+def gen_sequence(rng):
+    """Two requests through one manager: the first stays on its origin, the second starts on a sibling origin (same host name,
+    other port or scheme) and is redirected to the very same absolute URL -- for it a cross-origin hop."""
+    entry = rng.choice(["pm", "pm", "proxy"])
+    a, b = rng.choice([("http://a.test", "http://a.test:8080"), ("http://a.test:8080", "http://a.test")])
+    if rng.random() < 0.5:
+        a, b = b, a  # (then the first request is the cross-origin one)
+    target = rng.choice([a, a, b]) + rng.choice(["/same1", "/d/same2?x=1"])
+    hdrs = [[n, "secret-" + n.lower()[:4]] for n in rng.sample(SENSITIVE_SPELLINGS, rng.choice([1, 2]))] + [list(h) for h in rng.sample(OTHER, rng.choice([0, 1]))]
+    seen = set()
+    hdrs = [h for h in hdrs if not (h[0] in seen or seen.add(h[0]))]
+    st = rng.choice([301, 302, 307, 308])
+    cfg = {"entry": entry, "start": a + "/s", "then": {"start": b + "/s"}, "method": "GET", "headers": hdrs, "hdr_container": rng.choice(["dict", "hhd", "manager_default"]), "placement": "request", "policy": rng.choice(["unset", 5, {"redirect": 5}])}
+    web = {R.node_of(a + "/s"): {"status": st, "location": target}, R.node_of(b + "/s"): {"status": st, "location": target}}
     return {"property": ID, "config": cfg, "web": web}
 
 
 def cases(seed, k, tier):
-    yield gen(rng_for(seed, ID, k), tier)
+    rng = rng_for(seed, ID, k)
+    yield gen_sequence(rng) if k % 10 == 9 else gen(rng, tier)
 
 
 def run(sc: dict) -> Result:
@@ -127,6 +151,11 @@ def run(sc: dict) -> Result:
     cfg = sc["config"]
     with H.RunEnv(), H.quiet_warnings():
         w, outcome, log = R.run_web(sc)
+        split = w.tags.get("split")
+        log2 = []
+        if split is not None:
+            log, log2 = log[:split], log[split:]
+            res.probes["second_request_same_manager"] += 1
         answers = c05.check_common(sc, w, outcome, log, res)
         # C06 is about headers; C05's own classes are kept only when they mean a wrong host was contacted
         res.violations = [v for v in res.violations if v[0] in ("other_host_contacted", "wrong_origin", "no_termination")]
@@ -135,6 +164,22 @@ def run(sc: dict) -> Result:
             res.probes["custom_set"] += 1
         res.probes["container:" + cfg["hdr_container"]] += 1
         supplied = [(k, v) for k, v in cfg["headers"]]
+        failed = w.tags.get("failed_idx") or set()
+        if failed:
+            res.probes["fault_then_retry"] += 1
+            log = [x for i, x in enumerate(log) if i not in failed]  # (the answers list is aligned with the answered attempts)
+        if cfg["entry"] in ("pm", "proxy") and log2:
+            # the second request's chain, judged on its own: everything after its first cross-origin hop is stripped
+            crossed2 = False
+            for i, (origin, req) in enumerate(log2):
+                if i > 0 and origin != log2[i - 1][0]:
+                    crossed2 = True
+                if crossed2:
+                    leaked = [k for k, _ in req.headers if k.lower() in rm and any(k2.lower() == k.lower() for k2, _ in supplied)]
+                    if leaked:
+                        res.bad("credential_leak", f"second request through the same manager: hop {i} to {origin} carries {leaked} after the chain left {log2[0][0]}")
+                        break
+                    res.probes["stripped_after_cross_origin"] += 1
         if cfg["entry"] in ("pm", "proxy"):
             crossed = False
             content_dropped = False
